@@ -1479,7 +1479,7 @@ Proof.
   remember (set_ram_relay (fl_relay s1) (set_ram_t2 (fl_t2 s1) s1)) as s2 eqn:Es2.
   remember (set_slots (repeat slot_free 8) (set_delay 0 s2)) as s3 eqn:Es3.
   remember (set_chfl (if c_lateflags c then map (fun _ => 0) (c_relays c) else map r_chfl (c_relays c)) s3) as s4 eqn:Es4.
-  remember (set_queue [] (set_conn false (set_reg false (set_gout 0 s4)))) as s5 eqn:Es5.
+  remember (set_obuf [] (set_regreq false (set_queue [] (set_conn false (set_reg false (set_gout 0 s4)))))) as s5 eqn:Es5.
   remember (fold_left (restore_relay e c) (enum 0 (c_relays c)) s5) as s6 eqn:Es6.
   assert (A5 : slots s5 = repeat slot_free 8 /\ delay s5 = 0 /\ tcd s5 = tmr0 /\ cnt0 s5 = cnt0 s /\ tb s5 = tb s /\ now s5 = now s /\
                upc s5 = 0 /\ upl s5 = 0 /\ outs s5 = outs s /\ time2 s5 = time2 s).
@@ -2141,7 +2141,7 @@ Proof.
   remember (set_ram_relay (fl_relay s1) (set_ram_t2 (fl_t2 s1) s1)) as s2 eqn:Es2.
   remember (set_slots (repeat slot_free 8) (set_delay 0 s2)) as s3 eqn:Es3.
   remember (set_chfl (if c_lateflags c then map (fun _ => 0) (c_relays c) else map r_chfl (c_relays c)) s3) as s4 eqn:Es4.
-  remember (set_queue [] (set_conn false (set_reg false (set_gout 0 s4)))) as s5 eqn:Es5.
+  remember (set_obuf [] (set_regreq false (set_queue [] (set_conn false (set_reg false (set_gout 0 s4)))))) as s5 eqn:Es5.
   remember (fold_left (restore_relay e c) (enum 0 (c_relays c)) s5) as s6 eqn:Es6.
   assert (A5 : slots s5 = repeat slot_free 8 /\ delay s5 = 0 /\ tcd s5 = tmr0 /\ cnt0 s5 = cnt0 s /\ tb s5 = tb s /\ now s5 = now s /\
                upc s5 = 0 /\ upl s5 = 0 /\ outs s5 = outs s).
@@ -2194,7 +2194,7 @@ Qed.
 Lemma boot_outs e c s : exists add, outs (boot e c s) = add ++ outs s.
 Proof.
   unfold boot.
-  set (s5 := set_queue [] _).
+  set (s5 := set_obuf [] _).
   set (s6 := fold_left (restore_relay e c) (enum 0 (c_relays c)) s5).
   destruct (fold_restore_frame e c (enum 0 (c_relays c)) s5) as [_ _ _ (a & E)]. fold s6 in E.
   exists a. unfold uptime_usec. cbn [fst outs set_seqc set_upl set_upc]. rewrite E. reflexivity.
@@ -2633,17 +2633,18 @@ Qed.
 Definition nwb (s : st) : bool := cnt0 s + (now s - tb s) <? 4294967296.
 Definition nwrunb (e : bool) (c : cfg) (evs : list ev) : bool :=
   forallb (fun k => nwb (run_from e c (start e c) (firstn k evs))) (seq 0 (S (length evs))).
+Lemma nwb_NW s : nwb s = true -> NW s.
+Proof. unfold nwb, NW. intros H. apply Z.ltb_lt in H. exact H. Qed.
 Lemma firstn_min {A} k (l : list A) : firstn k l = firstn (Nat.min k (length l)) l.
 Proof.
   destruct (Nat.le_ge_cases k (length l)); [rewrite Nat.min_l by lia; reflexivity|].
   rewrite Nat.min_r by lia. rewrite firstn_all. apply firstn_all2. lia.
 Qed.
-Lemma nwrunb_ok e c evs : nwrunb e c evs = true -> NWrun e c (start e c) evs.
+Lemma nwrunb_ok e c evs :
+  forallb (fun k => nwb (run_from e c (start e c) (firstn k evs))) (seq 0 (S (length evs))) = true -> NWrun e c (start e c) evs.
 Proof.
-  intros H k. unfold nwrunb in H. pose proof (proj1 (forallb_forall _ _) H) as H'. clear H.
-  rewrite (firstn_min k evs). set (j := Nat.min k (length evs)).
-  assert (Hj : In j (seq 0 (S (length evs)))) by (apply in_seq; unfold j; lia).
-  specialize (H' j Hj). unfold nwb in H'. apply Z.ltb_lt in H'. exact H'.
+  intros H k. pose proof (proj1 (forallb_forall _ _) H) as H'. clear H.
+  rewrite (firstn_min k evs). apply nwb_NW. apply (H' (Nat.min k (length evs))). apply in_seq. lia.
 Qed.
 Definition slackb (S : Z) (l : list out) : bool :=
   forallb (fun o => match o with GEvalStart due t => t <=? due + S | _ => true end) l.
